@@ -8,6 +8,7 @@ import (
 	"reflect"
 	"strconv"
 	"strings"
+	"sync"
 	"testing"
 
 	"github.com/fabiolb/fabio/registry/consul"
@@ -59,7 +60,7 @@ func genRouteTag(t *rapid.T) routeTag {
 	if rapid.IntRange(0, 5).Draw(t, "tcp") == 0 {
 		rt.host = ":" + strconv.Itoa(rapid.IntRange(1, 65535).Draw(t, "port"))
 	} else {
-		rt.host = rapid.SampledFrom([]string{"", "", "example.com", "Example.COM", "api.example.com:8443", "*.example.com", "$DC.example.com", "${DC}.x"}).Draw(t, "host")
+		rt.host = rapid.SampledFrom([]string{"", "", "example.com", "Example.COM", "api.example.com:8443", "*.example.com", "$DC.example.com", "${DC}.x", "[v2.example.com", "{a.example.com", "v[12].example.com", "a{b,c}.example.com", "a\\b.example.com"}).Draw(t, "host")
 		rt.path = rapid.SampledFrom([]string{"/", "/a", "/a/b", "/Foo", "/ü", "/a*", "/[a", "/{x", "/a b"[:2], "/$DC/x"}).Draw(t, "path")
 	}
 	for i, n := 0, rapid.IntRange(0, 3).Draw(t, "nopts"); i < n; i++ {
@@ -119,7 +120,7 @@ func genRouteTag(t *rapid.T) routeTag {
 			rt.expressible = false
 		}
 	}
-	if strings.Contains(rt.path, "[") || strings.Contains(rt.path, "{") || strings.Contains(rt.redirect, "%zz") {
+	if strings.ContainsAny(rt.path, "[{") || strings.ContainsAny(rt.host, "[{\\") || strings.Contains(rt.redirect, "%zz") {
 		rt.expressible = false // judged by the parser/table, not by the harness
 	}
 	return rt
@@ -356,6 +357,57 @@ func TestC14Commands(t *testing.T) {
 		}
 		if hx.WantSample("registration") && odd.odd && len(cmds) > 0 {
 			hx.Sample("registration", map[string]any{"name": odd.name, "tags": odd.catalog().ServiceTags, "commands": cmds})
+		}
+	})
+}
+
+// TestC14ConcurrentBuild: fabio derives the commands of several services at the
+// same time (registry.consul.serviceMonitors > 1).  What a registration yields
+// must not depend on what is being derived next to it: the commands computed
+// by concurrent workers equal the ones computed one after the other.
+func TestC14ConcurrentBuild(t *testing.T) {
+	hx.Check(t, hx.Scale(150, 3000), func(t *rapid.T) {
+		env := map[string]string{"DC": "dc1"}
+		n := rapid.IntRange(8, 48).Draw(t, "services")
+		regs := make([]registration, n)
+		seq := make([][]string, n)
+		for i := range regs {
+			regs[i] = genRegistration(t, rapid.IntRange(0, 2).Draw(t, "plain") > 0)
+			regs[i].name = fmt.Sprintf("%s-%d", regs[i].name, i)
+			seq[i] = consul.VerifRouteCmds(regs[i].catalog(), prefix, env)
+		}
+		workers := rapid.IntRange(2, 16).Draw(t, "monitors")
+		rounds := rapid.IntRange(1, 4).Draw(t, "rounds")
+		for round := 0; round < rounds; round++ {
+			conc := make([][]string, n)
+			var wg sync.WaitGroup
+			start := make(chan struct{})
+			for w := 0; w < workers; w++ {
+				wg.Add(1)
+				go func(w int) {
+					defer wg.Done()
+					<-start
+					for i := w; i < n; i += workers {
+						conc[i] = consul.VerifRouteCmds(regs[i].catalog(), prefix, env)
+					}
+				}(w)
+			}
+			close(start)
+			wg.Wait()
+			hx.EvalN(n)
+			for i := range regs {
+				if !reflect.DeepEqual(seq[i], conc[i]) {
+					t.Fatalf("%d monitors deriving %d services at once: service %q (tags %q) yields\n%q\nbut alone it yields\n%q", workers, n, regs[i].name, regs[i].catalog().ServiceTags, conc[i], seq[i])
+				}
+			}
+		}
+		total := 0
+		for _, c := range seq {
+			total += len(c)
+		}
+		if total >= workers {
+			hx.NonTrivial(fmt.Sprintf("conc|%d|%d|%d|%q", n, workers, total, regs[0].catalog().ServiceTags))
+			hx.Class("concurrent-derivation")
 		}
 	})
 }
